@@ -63,6 +63,7 @@ type World struct {
 
 	cur      *BlockStep
 	curH     int64
+	forgedCheckH int64 // height during which the block producer last served a CheckTx of a tx altered after signing
 	curPlans []*TxPlan
 	cwCount  int
 	pending  []*pendingFork
@@ -557,7 +558,7 @@ func (w *World) RunBlock(h int64, step *BlockStep) {
 				w.Fatal = true
 			}
 		}
-		if w.Fatal || len(w.Reps)+len(w.Forks) < 2 {
+		if w.Fatal || (len(w.Reps)+len(w.Forks) < 2 && w.Tr.Cfg.CrashEnum == 0 && w.Tr.Cfg.PCrash == 0) {
 			w.Fatal = true
 			return
 		}
@@ -689,7 +690,7 @@ func (w *World) replicaProps(ri int) []string {
 	if w.Tr.Cfg.Noisy {
 		props = append(props, "C06", "C19")
 	}
-	if w.restarted[ri] {
+	if w.restarted[ri] || w.restarted[0] {
 		props = append(props, "C07")
 	}
 	return props
